@@ -125,13 +125,40 @@ func (c *Ctx) reachableModuleFuncs(roots []*ssa.Function, withBuiltins bool) map
 	for len(stack) > 0 {
 		f := stack[len(stack)-1]
 		stack = stack[:len(stack)-1]
+		fMod := fnInModule(f)
 		if n := cg.Nodes[f]; n != nil {
 			for _, e := range n.Out {
-				push(e.Callee.Func)
+				g := e.Callee.Func
+				// The call graph is context-insensitive: a dependency function that calls a function value (sync.Once.Do,
+				// sort.Slice, ...) gets an edge to every function value that flows into it from anywhere in the program.
+				// Edges from a dependency back into a named module function are therefore followed only for interface
+				// dispatch; function values the module itself hands to a dependency are added at the hand-over site below.
+				if !fMod && fnInModule(g) && e.Site != nil && !e.Site.Common().IsInvoke() {
+					continue
+				}
+				push(g)
 			}
 		}
 		for _, a := range f.AnonFuncs {
 			push(a)
+		}
+		if fMod {
+			for _, ci := range callsIn(f) {
+				callee := ci.Common().StaticCallee()
+				if callee != nil && fnInModule(callee) {
+					continue
+				}
+				for _, arg := range ci.Common().Args {
+					switch x := arg.(type) {
+					case *ssa.Function:
+						push(x)
+					case *ssa.MakeClosure:
+						if fn, ok := x.Fn.(*ssa.Function); ok {
+							push(fn)
+						}
+					}
+				}
+			}
 		}
 		if withBuiltins && !builtinsAdded && isReflectiveDispatcher(f) {
 			builtinsAdded = true
